@@ -295,6 +295,7 @@ def run(ctx, name, kind, **kw):
         jobs.append(("remove_integer_bad", lambda s: _expect_der_error(der.remove_integer, s), (b"\x02\x02\x00\x01",), "UnexpectedDER"))
         S.concurrent_purity(ctx, S.codes_of(der), jobs, rng, kw["runs"])
         S.reentrant_purity(ctx, S.codes_of(der), jobs, rng, max(12, kw["runs"] // 6))
+        S.fault_purity(ctx, S.codes_of(der), jobs, rng, max(12, kw["runs"] // 6))
         # memo pressure: one thread repeats a call it made before (the path a memo serves) and is suspended at each of its yield
         # points in turn while another thread makes MANY distinct calls (enough to turn over any bounded memo), then resumes
         many = [(1, 3, 6, 1, 4, 1, 40000 + i, i % 7) for i in range(1300)]
